@@ -378,3 +378,198 @@ theorem crun_after_set (cfg : RCfg) (items : List Item) (nb : Int) (hnb : 0 ≤ 
   simp only [hf2, optL, List.nil_append]
 
 end KV.C02
+
+namespace KV.C02
+
+/-! ### the API: `Offset()`, `SetOffset`'s no-op rule, the lazy start -/
+
+theorem feed_sorted {log : List Rec} (hlog : log.Pairwise (fun a b => a.1 < b.1)) (o : Int) :
+    (feed log o).Pairwise (fun a b => a.1 < b.1) := hlog.filter _
+
+/-- after the first stored record at or above `pos` come the stored records above it -/
+theorem feed_tail {log : List Rec} (hlog : log.Pairwise (fun a b => a.1 < b.1)) {pos : Int} {r : Rec} {rest : List Rec}
+    (h : feed log pos = r :: rest) : rest = feed log (r.1 + 1) := by
+  have hs := feed_sorted hlog pos
+  rw [h, List.pairwise_cons] at hs
+  apply sorted_ext _ _ hs.2 (feed_sorted hlog _)
+  intro x
+  have hmem : ∀ y, y ∈ feed log pos ↔ (y ∈ log ∧ pos ≤ y.1) := by intro y; simp [feed]
+  have hr := (hmem r).1 (by rw [h]; simp)
+  constructor
+  · intro hx
+    have := (hmem x).1 (by rw [h]; simp [hx])
+    have := hs.1 x hx
+    simp only [feed, List.mem_filter, decide_eq_true_eq]
+    exact ⟨‹x ∈ log ∧ pos ≤ x.1›.1, by omega⟩
+  · intro hx
+    simp only [feed, List.mem_filter, decide_eq_true_eq] at hx
+    have := (hmem x).2 ⟨hx.1, by omega⟩
+    rw [h, List.mem_cons] at this
+    rcases this with rfl | this
+    · omega
+    · exact this
+
+structure AInv (items : List Item) (a : AS) : Prop where
+  cinv : CInv items a.c
+  posok : -2 ≤ a.pos ∧ a.pos ≠ -1
+  cur : a.c.fs.version ≠ 0 → ∃ f ∈ a.c.fs.fetchers, f.tag = a.c.fs.version ∧
+    (feed (allRecords items) f.start).drop a.c.fs.accepted = feed (allRecords items) a.pos
+
+theorem ainv_init (items : List Item) (o : Int) (ho : -2 ≤ o ∧ o ≠ -1) : AInv items { pos := o } :=
+  ⟨cinv_init items, ho, fun h => absurd rfl h⟩
+
+/-- what the three calls do, seen by the application -/
+def ASpec (items : List Item) (a : AS) (e : AEv) (a' : AS) (m : Option Rec) : Prop :=
+  match e with
+  | .setOffset o => a'.pos = o ∧ m = none
+  | .env _ _ => a'.pos = a.pos ∧ m = none
+  | .fetch =>
+    match m with
+    | some r => (feed (allRecords items) a.pos).head? = some r ∧ a'.pos = r.1 + 1
+    | none => a'.pos = a.pos
+
+theorem cstep_set (cfg : RCfg) (items : List Item) (c : CS) (o : Int) :
+    cstep cfg items c (.setOffset o) =
+      some ({ fs := { version := c.fs.version + 1, queue := c.fs.queue,
+                      fetchers := { tag := c.fs.version + 1, start := o } :: c.fs.fetchers, accepted := 0 },
+              loops := (c.fs.version + 1, { offset := o }) :: c.loops }, none) := by
+  simp [cstep, fstep]
+
+theorem astep_inv (cfg : RCfg) (items : List Item) (nb : Int) (hnb : 0 ≤ nb) (hwf : LWF nb items) {a a' : AS} {m : Option Rec}
+    {e : AEv} (h : AInv items a) (hok : e.ok items) (hs : astep cfg items a e = some (a', m)) :
+    AInv items a' ∧ ASpec items a e a' m := by
+  have hlog := allRecords_sorted items nb hnb hwf
+  have hstart : ∀ o, -2 ≤ o ∧ o ≠ -1 →
+      AInv items { c := { fs := { version := a.c.fs.version + 1, queue := a.c.fs.queue,
+                                  fetchers := { tag := a.c.fs.version + 1, start := o } :: a.c.fs.fetchers, accepted := 0 },
+                          loops := (a.c.fs.version + 1, { offset := o }) :: a.c.loops }, pos := o } := by
+    intro o ho
+    have hc := (cstep_sim cfg items nb hnb hwf h.cinv (e := .setOffset o) ho (cstep_set cfg items a.c o)).1
+    exact ⟨hc, ho, fun _ => ⟨{ tag := a.c.fs.version + 1, start := o }, by simp, rfl, by simp⟩⟩
+  cases e with
+  | setOffset o =>
+    simp only [AEv.ok] at hok
+    simp only [astep] at hs
+    by_cases h1 : o = a.pos
+    · simp only [h1, if_true, Option.some.injEq, Prod.mk.injEq] at hs
+      obtain ⟨rfl, rfl⟩ := hs
+      exact ⟨h, by simp [ASpec, h1]⟩
+    · simp only [h1, if_false] at hs
+      by_cases h2 : a.c.fs.version = 0
+      · simp only [h2, if_true, Option.some.injEq, Prod.mk.injEq] at hs
+        obtain ⟨rfl, rfl⟩ := hs
+        exact ⟨⟨h.cinv, hok, fun hv => absurd h2 hv⟩, by simp [ASpec]⟩
+      · simp only [h2, if_false, cstep_set, Option.some.injEq, Prod.mk.injEq] at hs
+        obtain ⟨rfl, rfl⟩ := hs
+        exact ⟨hstart o hok, by simp [ASpec]⟩
+  | env t x =>
+    simp only [AEv.ok] at hok
+    simp only [astep] at hs
+    cases hc : cstep cfg items a.c (.env t x) with
+    | none => simp [hc] at hs
+    | some p =>
+      obtain ⟨c', m'⟩ := p
+      simp only [hc, Option.some.injEq, Prod.mk.injEq] at hs
+      obtain ⟨rfl, rfl⟩ := hs
+      obtain ⟨hc', _⟩ := cstep_sim cfg items nb hnb hwf h.cinv (e := .env t x) hok hc
+      refine ⟨⟨hc', h.posok, ?_⟩, by simp [ASpec]⟩
+      -- the front part: version, accepted and the fetchers' start offsets are untouched
+      simp only [cstep] at hc
+      cases hl : lookupLoop t a.c.loops with
+      | none => simp [hl] at hc
+      | some s =>
+        simp only [hl, Option.some.injEq, Prod.mk.injEq] at hc
+        obtain ⟨rfl, _⟩ := hc
+        intro hv
+        obtain ⟨f, hf, hft, hfd⟩ := h.cur hv
+        refine ⟨if f.tag = t then { f with sent := f.sent + ((rstep cfg s (worldEvent items s x)).msgs.drop s.msgs.length).length } else f,
+          ?_, ?_, ?_⟩
+        · simp only [pushQ, List.mem_map]; exact ⟨f, hf, rfl⟩
+        · split <;> exact hft
+        · split <;> exact hfd
+  | fetch =>
+    simp only [astep] at hs
+    by_cases h2 : a.c.fs.version = 0
+    · simp only [h2, if_true, cstep_set, Option.some.injEq, Prod.mk.injEq] at hs
+      obtain ⟨rfl, rfl⟩ := hs
+      have := hstart a.pos h.posok
+      simp only [h2] at this
+      exact ⟨this, by simp [ASpec]⟩
+    · simp only [h2, if_false] at hs
+      cases hc : cstep cfg items a.c .fetch with
+      | none => simp [hc] at hs
+      | some p =>
+        obtain ⟨c2, m'⟩ := p
+        simp only [hc, Option.some.injEq, Prod.mk.injEq] at hs
+        obtain ⟨rfl, rfl⟩ := hs
+        obtain ⟨hc', _⟩ := cstep_sim cfg items nb hnb hwf h.cinv (e := .fetch) trivial hc
+        obtain ⟨f, hf, hft, hfd⟩ := h.cur h2
+        simp only [cstep] at hc
+        cases hfs : fstep (allRecords items) a.c.fs .fetch with
+        | none => simp [hfs] at hc
+        | some q =>
+          obtain ⟨fs', m2⟩ := q
+          simp only [hfs, Option.some.injEq, Prod.mk.injEq] at hc
+          obtain ⟨rfl, rfl⟩ := hc
+          have hget := (finv_step h.cinv.finv hfs).2
+          -- what fstep did to the front
+          simp only [fstep] at hfs
+          cases hq : Front.fetchMessage { version := a.c.fs.version, queue := a.c.fs.queue } with
+          | none => simp [hq] at hfs
+          | some q2 =>
+            obtain ⟨r, f'⟩ := q2
+            simp only [hq, Option.some.injEq, Prod.mk.injEq] at hfs
+            obtain ⟨rfl, rfl⟩ := hfs
+            have hr := hget r rfl f hf hft
+            have hhead : feed (allRecords items) a.pos = r :: (feed (allRecords items) a.pos).tail := by
+              rw [← hfd]
+              have : ((feed (allRecords items) f.start).drop a.c.fs.accepted)[0]? = some r := by
+                rw [List.getElem?_drop]; simpa using hr
+              cases hd : (feed (allRecords items) f.start).drop a.c.fs.accepted with
+              | nil => rw [hd] at this; simp at this
+              | cons y ys => rw [hd] at this; simp at this; simp [this]
+            have htail := feed_tail hlog hhead
+            have hrec : r ∈ allRecords items := by
+              have : r ∈ feed (allRecords items) a.pos := by rw [hhead]; simp
+              simp only [feed, List.mem_filter] at this
+              exact this.1
+            have hr0 := records_ge hwf r hrec
+            refine ⟨⟨hc', ⟨by simp only; omega, by simp only; omega⟩, ?_⟩, ?_⟩
+            · intro _
+              refine ⟨f, hf, hft, ?_⟩
+              simp only
+              rw [← htail, ← List.drop_drop, hfd, hhead]
+              simp
+            · simp only [ASpec, and_true]
+              rw [hhead]; rfl
+
+end KV.C02
+
+namespace KV.C02
+
+theorem arun_inv (cfg : RCfg) (items : List Item) (nb : Int) (hnb : 0 ≤ nb) (hwf : LWF nb items) :
+    ∀ (es : List AEv) (a a' : AS) (ms : List Rec), AInv items a → (∀ e ∈ es, e.ok items) →
+      arun cfg items a es = some (a', ms) → AInv items a' := by
+  intro es
+  induction es with
+  | nil =>
+    intro a a' ms h _ hr
+    simp only [arun, Option.some.injEq, Prod.mk.injEq] at hr
+    rw [← hr.1]; exact h
+  | cons e es ih =>
+    intro a a' ms h hok hr
+    simp only [arun] at hr
+    cases hs : astep cfg items a e with
+    | none => simp [hs] at hr
+    | some p =>
+      obtain ⟨a1, m⟩ := p
+      simp only [hs] at hr
+      cases hq : arun cfg items a1 es with
+      | none => simp [hq] at hr
+      | some q =>
+        obtain ⟨a2, ms'⟩ := q
+        simp only [hq, Option.some.injEq, Prod.mk.injEq] at hr
+        rw [← hr.1]
+        exact ih a1 a2 ms' (astep_inv cfg items nb hnb hwf h (hok e (by simp)) hs).1 (fun x hx => hok x (by simp [hx])) hq
+
+end KV.C02
